@@ -108,6 +108,12 @@ def type_src_plain(name, d, derives):
     if d["kind"] == "compactas":
         if d["shape"] == "enum":
             return "#[derive(parity_scale_codec::CompactAs)]\npub enum %s { A(u32) }\n" % name
+        if d["shape"] == "tuple":
+            if d["nonskipped"] == 1:
+                return "#[derive(parity_scale_codec::CompactAs)]\npub struct %s(u32, #[codec(skip)] u32);\n" % name
+            if d["nonskipped"] == 2:
+                return "#[derive(parity_scale_codec::CompactAs)]\npub struct %s(u32, u32);\n" % name
+            return "#[derive(parity_scale_codec::CompactAs)]\npub struct %s(u64, u64, u64);\n" % name
         if d["nonskipped"] == 1:
             return "#[derive(parity_scale_codec::CompactAs)]\npub struct %s { a: u32, #[codec(skip)] b: u8 }\n" % name
         if d["nonskipped"] == 2:
@@ -307,9 +313,17 @@ SPECIALS = [
     dict(kind="struct", shape="tuple", transparent=False, fs=[dict(ty="u32", attr="none"), dict(ty="u64", attr="skip+encoded_as")]),
     dict(kind="struct", shape="named", transparent=False, fs=[dict(ty="u8", attr="none"), dict(ty="u32", attr="none"), dict(ty="u64", attr="compact+encoded_as")]),
     dict(kind="struct", shape="named", transparent=False, fs=[dict(ty="u32", attr="none"), dict(ty="u64", attr="skip")]),
+    # a single encodable variant is still range-checked
+    dict(kind="enum", vs=[dict(src="attr", val=300, skip=False, fs=[dict(ty="u8", attr="none")])]),
+    dict(kind="enum", vs=[dict(src="attr", val=255, skip=False, fs=[dict(ty="u8", attr="none")])]),
+    dict(kind="enum", vs=[dict(src="none", val=0, skip=True, fs=[]), dict(src="attr", val=256, skip=False, fs=[]), dict(src="none", val=0, skip=True, fs=[])]),
+    dict(kind="enum", vs=[dict(src="disc", val=256, skip=False, fs=[])]),
     dict(kind="union"),
     dict(kind="compactas", shape="struct", nonskipped=1), dict(kind="compactas", shape="struct", nonskipped=2),
     dict(kind="compactas", shape="struct", nonskipped=0), dict(kind="compactas", shape="enum", nonskipped=1),
+    dict(kind="compactas", shape="tuple", nonskipped=1), dict(kind="compactas", shape="tuple", nonskipped=2),
+    dict(kind="compactas", shape="tuple", nonskipped=3),
+    dict(kind="bigenum", n=300, skip_first=True),
     dict(kind="struct", shape="named", transparent=False, fs=[dict(ty="u32", attr="skip+compact")]),
     dict(kind="struct", shape="named", transparent=False, fs=[dict(ty="u32", attr="compact+encoded_as")]),
     dict(kind="struct", shape="tuple", transparent=False, fs=[dict(ty="u32", attr="skip,compact")]),
